@@ -305,6 +305,12 @@ def weave_item(hdr, subs, stats):
             ot.replace(i, i + len(old), new)
             pos = i + len(new)
         log.append({"rule": d["rule"], "before": old, "after": new, "count": n})
+    for d in subs:
+        if d["op"] == "truncate":
+            n = _truncate_casts(ot, set(d["types"]))
+            log.append({"rule": "R8 mark integer `as` casts as truncating (Rust semantics)",
+                        "before": "<e> as " + "|".join(d["types"]),
+                        "after": "#[verifier::truncate] (<e> as T)", "count": n})
     # 2. insertions (compute on the rewritten text; apply back to front)
     toks = tokenize(ot.s)
     ins = []  # (pos, text, order)
@@ -410,11 +416,14 @@ def weave_item(hdr, subs, stats):
                 li, lo, lc = loop_at(d["n"], "beforeloop")
                 # a labelled loop / `let x = loop` keeps its prefix: insert at line start
                 add(_line_start_or(ot.s, toks[li].start), d["text"].rstrip() + "\n")
+            elif d["op"] == "afterloop":
+                li, lo, lc = loop_at(d["n"], "afterloop")
+                add(toks[lc].end, "\n" + d["text"].rstrip() + "\n")
             elif d["op"] == "bodystart":
                 add(toks[bi].end, "\n" + d["text"].rstrip() + "\n")
             elif d["op"] == "bodyend":
                 add(_line_start_or(ot.s, toks[body_close].start), d["text"].rstrip() + "\n")
-            if d["op"] in ("loopstart", "loopend", "beforeloop", "bodystart", "bodyend"):
+            if d["op"] in ("loopstart", "loopend", "beforeloop", "afterloop", "bodystart", "bodyend"):
                 clauses += len(re.findall(r"\bassert\b", d["text"]))
         want_loops = {d["n"] for d in subs if d["op"] == "loop"}
         stats["loops"] = stats.get("loops", 0) + len(loop_toks)
@@ -496,6 +505,65 @@ def weave_item(hdr, subs, stats):
         "contracted": kind == "fn" and any(d["op"] in ("requires", "ensures") for d in subs),
     }
     return ot, meta
+
+
+def _operand_start(toks, pos):
+    """index of the first token of the unary/postfix expression ending at toks[pos]."""
+    opener = {")": "(", "]": "["}
+    while True:
+        t = toks[pos]
+        if t.kind == "punct" and t.text in opener:
+            depth = 0
+            k = pos
+            while k >= 0:
+                if toks[k].text in (")", "]", "}"):
+                    depth += 1
+                elif toks[k].text in ("(", "[", "{"):
+                    depth -= 1
+                    if depth == 0:
+                        break
+                k -= 1
+            pos = k
+            if pos > 0 and (toks[pos - 1].kind in ("id",) and toks[pos - 1].text not in
+                            ("if", "while", "match", "return", "in", "let", "as", "else")
+                            or toks[pos - 1].text in (")", "]", "?")):
+                pos -= 1
+                continue
+            break
+        if t.kind in ("id", "num", "str", "chr"):
+            if pos > 1 and toks[pos - 1].text in (".", "::"):
+                pos -= 2
+                continue
+            break
+        if t.text == "?":
+            pos -= 1
+            continue
+        break
+    while pos > 0 and toks[pos - 1].text in ("-", "!", "*", "&") and (
+            pos - 1 == 0 or toks[pos - 2].kind == "punct" and toks[pos - 2].text not in (")", "]")):
+        pos -= 1
+    return pos
+
+
+def _truncate_casts(ot, types):
+    n = 0
+    while True:
+        toks = tokenize(ot.s)
+        done = True
+        for i, t in enumerate(toks):
+            if t.kind == "id" and t.text == "as" and i + 1 < len(toks) and toks[i + 1].text in types and i > 0:
+                st = _operand_start(toks, i - 1)
+                pre = ot.s[max(0, toks[st].start - 24):toks[st].start]
+                if "#[verifier::truncate] (" in pre:
+                    continue
+                a, b = toks[st].start, toks[i + 1].end
+                ot.insert(b, ")")
+                ot.insert(a, "#[verifier::truncate] (")
+                n += 1
+                done = False
+                break
+        if done:
+            return n
 
 
 def _count_clauses(txt):
@@ -583,7 +651,7 @@ def parse_template(path, seen=None):
                     elif op == "loop":
                         cur = {"op": "loop", "n": int(rest), "text": ""}
                         subs.append(cur)
-                    elif op in ("loopstart", "loopend", "beforeloop"):
+                    elif op in ("loopstart", "loopend", "beforeloop", "afterloop"):
                         cur = {"op": op, "n": int(rest), "text": ""}
                         subs.append(cur)
                     elif op in ("bodystart", "bodyend"):
@@ -615,6 +683,8 @@ def parse_template(path, seen=None):
                         d["count"] = int(mm.group(2)) if mm.group(2) else ("all" if mm.group(3) else 1)
                         subs.append(d)
                         i += 2
+                    elif op == "truncate":
+                        subs.append({"op": "truncate", "types": rest.split()})
                     elif op in ("ret", "rename"):
                         subs.append({"op": op, "name": rest.strip()})
                     elif op == "attr":
